@@ -90,20 +90,26 @@ func (d *ioDelegate) Write(p []byte) (int, error) {
 	return n, err
 }
 
+// seekable reports whether a file can be rewound: a pipe or a FIFO cannot.
+func seekable(f *os.File) bool {
+	_, err := f.Seek(0, io.SeekCurrent)
+	return err == nil
+}
+
 func (d *ioDelegate) TryCache(h hash.Hash, data []byte) (bool, error) {
 	dir, err := gtsCacheDir()
 	if err != nil {
 		return false, nil
 	}
 
-	if d.infile == os.Stdin {
+	if d.infile == os.Stdin || !seekable(d.infile) {
 		// Write to a temporary file to enable seeking.
 		f, err := ioutil.TempFile("", "gts-tmp-*")
 		if err != nil {
 			return false, nil
 		}
 
-		if _, err := io.Copy(f, os.Stdin); err != nil {
+		if _, err := io.Copy(f, d.infile); err != nil {
 			d.Close()
 			return false, err
 		}
